@@ -2304,10 +2304,14 @@ class Recipe:
                 if isinstance(solvent, Container):
                     # containers and such can change while baking the recipe
                     solvent = self.results.get(solvent.name, solvent)
+                    # the solvent container is the source of this step
+                    step.frm[0] = solvent
+                    step.objects_used.add(solvent.name)
                 results = Container.create_solution(solute, solvent, dest_name, **kwargs)
                 if isinstance(solvent, Container):
                     self.used.add(solvent.name)
                     self.results[solvent.name], self.results[dest_name] = results
+                    step.frm[1] = self.results[solvent.name]
                 else:
                     self.results[dest_name] = results
                 step.substances_used = self.results[dest_name].get_substances()
